@@ -273,6 +273,9 @@ def check_func(c):
     if c.get('dup'):
         X = np.vstack([X, X[:2]])
     y = 1.0 + np.sum(np.cos(X * (1 + np.arange(d))), axis=1) + 0.3 * X[:, 0] * X[:, -1]
+    if c.get('ignore_last'):        # the data do not depend on the last variable: its fitted coefficients are rounding noise
+        y = 1.0 + np.cos(2 * X[:, 0]) + 0.5 * X[:, 0] ** 2
+    y = y * float(c.get('scale', 1.0))
     cheb = np.polynomial.chebyshev
     for lamb in c['lambs']:
         for e in (None, 1e-8):
@@ -307,7 +310,7 @@ def check_func(c):
                 got = teneva.func_get(P, A, a, b)
             cond = max(np.linalg.cond(cheb.chebvander((X[:, k] - (b + a) / 2) * (2 / (b - a)), n - 1).T @
                                       cheb.chebvander((X[:, k] - (b + a) / 2) * (2 / (b - a)), n - 1) + lamb * np.eye(n)) for k in range(d))
-            tol = (1e-12 * cond + (1e-7 if e else 0)) * (1 + np.abs(want).max())
+            tol = (1e-12 * cond + (1e-7 if e else 0)) * (np.abs(y).max() + np.abs(want).max())
             res.check(np.abs(got - want).max() <= tol, 'func.value', case,
                       lambda: 'interpolant differs from constant + fitted 1-D expansions by %.3e (tol %.1e)' % (np.abs(got - want).max(), tol), ['func'])
             if e is None:
@@ -339,6 +342,9 @@ def strata(tier, seed):
     yield Stratum('additive functions on full grids', ad, 'additive', size=len(ad), chunk=8, bounds={})
     pw = [dict(shape=[2] * d, rs=[4, 8, 16]) for d in (3, 4, 5, 6, 7)] + [dict(shape=[3, 2, 2, 3, 2, 2], rs=[8, 32])]
     yield Stratum('pair interactions on full grids, d up to 7', pw, 'pairwise', size=len(pw), chunk=1, bounds={'d': [3, 7], 'summands in add_many': 'up to 22'})
+    fs0 = [dict(d=d, n=n, box=[-1., 1.], m=m, lambs=[0.0, 1e-7], dup=False, seed=seed, ignore_last=ig, scale=sc)
+           for d in (2, 3) for n in (2, 3, 4) for m in (20, 40) for ig in (True, False) for sc in (1.0, 1e-17, 1e+12)]
+    yield Stratum('functional variant: lamb = 0, ignored variables, extreme scales', fs0, 'func', size=len(fs0), chunk=8, bounds={})
     fs = [dict(d=d, n=n, box=list(box), m=m, lambs=[1e-7, 1e-2], dup=dup, seed=seed)
           for d in (2, 3, 4) for n in (2, 3, 4) for box in ((-1., 1.), (0., 2.), (-3., -1.)) for m in (3, 7, 20) for dup in (False, True)]
     yield Stratum('functional variant', fs, 'func', size=len(fs), chunk=8, bounds={'n': [2, 4], 'd': [2, 4]})
